@@ -35,7 +35,7 @@ func verifC40BuildDescribe(s *Server) (arrow.RecordBatch, arrow.Metadata) {
 //verif:race
 //verif:stub (*github.com/Query-farm/vgi-rpc-go/vgirpc.HttpServer).initPages = verifC40InitPages
 //verif:stub (*github.com/Query-farm/vgi-rpc-go/vgirpc.Server).buildDescribeBatch = verifC40BuildDescribe
-//verif:bound 2 (thorough: 2..3) concurrent first requests, each running notifyTransport(HTTP) -> InitPages -> ProtocolHash -> TransportKind as ServeHTTP and the dispatchers do, plus optionally a /health render; the serve-start hook is absent, succeeds, or fails its first 1..2 invocations and then succeeds, and may itself read TransportKind(); ALL interleavings at synchronisation points with at most 3 (4) preemptions. Page rendering and the describe batch are counters with a preemption point inside; a happens-before race detector watches every heap load and store of repository code on every explored schedule
+//verif:bound 2 concurrent first requests, each running notifyTransport(HTTP) -> InitPages -> ProtocolHash -> TransportKind as ServeHTTP and the dispatchers do, plus optionally a /health render; the serve-start hook is absent, succeeds, or fails its first 1..2 invocations and then succeeds, and may itself read TransportKind(); ALL interleavings at synchronisation points with at most 3 (4) preemptions. Page rendering and the describe batch are counters with a preemption point inside; a happens-before race detector watches every heap load and store of repository code on every explored schedule
 func verifH_C40_lazy_setup_once() {
 	verifC40Pages, verifC40Describes = 0, 0
 	s := &Server{serverID: "srv", methods: map[string]*methodInfo{}}
@@ -64,9 +64,6 @@ func verifH_C40_lazy_setup_once() {
 		}
 	}
 	n := 2
-	if verifTier() == 1 {
-		n = 2 + verifChoice("requests", 2)
-	}
 	withHealth := verifNondetBool("health_probe")
 	errs := make([]error, n)
 	kinds := make([]TransportKind, n)
